@@ -135,7 +135,10 @@ def template_programs():
                     compile(src, '<c05>', 'exec', dont_inherit=True)
                 except (SyntaxError, ValueError):
                     continue
-                out.append(('%s/%d/%s' % (sk, i, variant), src))
+                guard = st.startswith(('pass\n', 'assert ', 'if __debug__')) and ('"' in st.split('\n', 1)[-1]) and '\n' in st
+                if guard and variant != 'alone':
+                    continue          # the string has to follow the removed statements at the very start of the block
+                out.append((('doc-guard/%s/%d' % (sk, i)) if guard else '%s/%d/%s' % (sk, i, variant), src))
     for i, src in enumerate(ANNOTATED):
         out.append(('annotated/%d' % i, src + '\n'))
         out.append(('annotated_doc/%d' % i, '"""module docstring"""\n' + src + '\nprint(__doc__)\n'))
